@@ -2,8 +2,18 @@
    modelled entry points (C09/Guards.v): when the guard passes, the body — written with
    checked array access — never indexes out of range, for every identifier in Z and every
    array length.  Memory safety of the compiled C is not a theorem; it is monitored under
-   ASan/UBSan by harness/props/c09.py.  `_refuted` theorems are the guards that are wrong
-   in /repo (findings F3, F4, C09-N1..N6), each next to the repaired guard proved correct. *)
+   ASan/UBSan by harness/props/c09.py.
+
+   Entries whose guard was (or is) defective take the comparison as a boolean parameter of the
+   model; the per-run correspondence instantiates it with the constant that
+   translator/facts_c09.py re-reads from /repo (C09_* in Gen/Generated.v).  After the fix:
+   commits 7206c30 (F3, 3 of 4 sites), eee123e (F4), 665ed14 (N4), b50fe2e (N6) these constants
+   are `true`, i.e. THE CURRENT MODEL IS THE [true] VARIANT and the in-bounds theorems below
+   (without suffix) are statements about it.  `_pinned_refuted` theorems are a historical
+   record about the [false] variant = the code at the pinned commit 380c75d.  `_refuted`
+   without `pinned` = defects still present in /repo: the 4th F3 site
+   (ancestor_mapper_init_ancestors, kept because tests/test_lowlevel.py::test_link_ancestors
+   relies on it), C09-N1, N2, N3. *)
 From Coq Require Import List ZArith Bool.
 From TskVerif Require Import Base.Common C09.Guards C09.GuardProofs C09.MapMutations C09.SeekProofs C09.RatesProofs.
 Import ListNotations.
@@ -52,24 +62,24 @@ Theorem guard_implies_in_bounds_tree_array_checked_parse : forall arr N x,
   zlen arr = N + 1 -> Tree_array_get_checked_parse arr N x <> OOB.
 Proof. exact GuardProofs.guard_implies_in_bounds_tree_array_checked_parse. Qed.
 
-(* ---- id-list loops: F3 ---- *)
-Theorem ibd_within_guard_refuted :
+(* ---- id-list loops: F3 (fixed at three sites; current model = strict comparison) ---- *)
+Theorem ibd_within_guard_pinned_refuted :
   exists N samples, 0 <= N /\ ibd_within_init false N samples = OOB.
 Proof. exact GuardProofs.ibd_within_guard_refuted. Qed.
 
-Theorem guard_implies_in_bounds_ibd_within_repaired : forall N samples,
+Theorem guard_implies_in_bounds_ibd_within : forall N samples,
   0 <= N -> ibd_within_init true N samples <> OOB.
 Proof. exact GuardProofs.guard_implies_in_bounds_ibd_within_repaired. Qed.
 
-Theorem ibd_between_guard_refuted :
+Theorem ibd_between_guard_pinned_refuted :
   exists N sets, 0 <= N /\ ibd_between_init false N sets = OOB.
 Proof. exact GuardProofs.ibd_between_guard_refuted. Qed.
 
-Theorem guard_implies_in_bounds_ibd_between_repaired : forall N sets,
+Theorem guard_implies_in_bounds_ibd_between : forall N sets,
   0 <= N -> ibd_between_init true N sets <> OOB.
 Proof. exact GuardProofs.guard_implies_in_bounds_ibd_between_repaired. Qed.
 
-Theorem link_ancestors_samples_guard_refuted :
+Theorem link_ancestors_samples_guard_pinned_refuted :
   exists N samples ancestors, 0 <= N /\ link_ancestors_init false true N samples ancestors = OOB.
 Proof. exact GuardProofs.link_ancestors_samples_guard_refuted. Qed.
 
@@ -77,6 +87,8 @@ Theorem link_ancestors_ancestors_guard_refuted :
   exists N samples ancestors, 0 <= N /\ link_ancestors_init true false N samples ancestors = OOB.
 Proof. exact GuardProofs.link_ancestors_ancestors_guard_refuted. Qed.
 
+(* the current model of link_ancestors is [link_ancestors_init true false]: still refuted by
+   link_ancestors_ancestors_guard_refuted above; with both guards strict it is in bounds *)
 Theorem guard_implies_in_bounds_link_ancestors_repaired : forall N samples ancestors,
   0 <= N -> link_ancestors_init true true N samples ancestors <> OOB.
 Proof. exact GuardProofs.guard_implies_in_bounds_link_ancestors_repaired. Qed.
@@ -157,11 +169,11 @@ Theorem union_without_length_check_refuted :
 Proof. exact GuardProofs.union_without_length_check_refuted. Qed.
 
 (* finding C09-N6 *)
-Theorem site_set_columns_metadata_offset_refuted :
+Theorem site_set_columns_metadata_offset_pinned_refuted :
   exists position so mo sl ml, site_table_set_columns false position so mo sl ml = OOB.
 Proof. exact GuardProofs.site_set_columns_metadata_offset_refuted. Qed.
 
-Theorem guard_implies_in_bounds_site_set_columns_repaired : forall position so mo sl ml,
+Theorem guard_implies_in_bounds_site_set_columns : forall position so mo sl ml,
   site_table_set_columns true position so mo sl ml <> OOB.
 Proof. exact GuardProofs.guard_implies_in_bounds_site_set_columns_repaired. Qed.
 
@@ -173,23 +185,23 @@ Theorem guard_implies_in_bounds_two_branch_rows_repaired : forall rows,
   two_branch_row_span true rows <> OOB.
 Proof. exact GuardProofs.guard_implies_in_bounds_two_branch_rows_repaired. Qed.
 
-(* ---- positions: F4 ---- *)
-Theorem seek_guard_nan_refuted : forall L, seek_guard NaN L = false.
+(* ---- positions: F4 (fixed: current model = [seek_guard_repaired] / [tree_seek true]) ---- *)
+Theorem seek_guard_nan_pinned_refuted : forall L, seek_guard NaN L = false.
 Proof. exact GuardProofs.seek_guard_nan_refuted_lemma. Qed.
 
-Theorem seek_guard_passes_only_nan_or_range : forall x L,
+Theorem seek_guard_pinned_passes_only_nan_or_range : forall x L,
   seek_guard x L = false -> x = NaN \/ exists z, x = Fin z /\ 0 <= z < L.
 Proof. exact GuardProofs.seek_guard_passes. Qed.
 
-Theorem tree_seek_nan_never_returns : forall bps T i fuel,
+Theorem tree_seek_nan_never_returns_pinned_refuted : forall bps T i fuel,
   zlen bps = T + 1 -> 1 <= T -> 0 <= i < T -> tree_seek false fuel bps T i NaN = Fuel.
 Proof. exact GuardProofs.tree_seek_nan_hangs. Qed.
 
-Theorem seek_guard_repaired_passes_only_range : forall x L,
+Theorem seek_guard_passes_only_range : forall x L,
   seek_guard_repaired x L = false -> exists z, x = Fin z /\ 0 <= z < L.
 Proof. exact GuardProofs.seek_guard_repaired_passes. Qed.
 
-Theorem tree_seek_repaired_rejects_nan : forall bps T i fuel,
+Theorem tree_seek_rejects_nan : forall bps T i fuel,
   zlen bps = T + 1 -> 0 <= T -> exists c, tree_seek true fuel bps T i NaN = Err c.
 Proof. exact GuardProofs.tree_seek_repaired_rejects_nan. Qed.
 
@@ -202,11 +214,11 @@ Theorem tree_seek_linear_terminates : forall bps T i z fwd,
 Proof. exact SeekProofs.tree_seek_linear_terminates. Qed.
 
 (* finding C09-N4 *)
-Theorem windows_guard_nan_refuted :
+Theorem windows_guard_nan_pinned_refuted :
   exists L w, check_windows false L w = true /\ ~ strictly_increasing w.
 Proof. exact GuardProofs.windows_guard_nan_refuted_lemma. Qed.
 
-Theorem check_windows_repaired_sorted : forall L w,
+Theorem check_windows_sorted : forall L w,
   check_windows true L w = true -> strictly_increasing w.
 Proof. exact GuardProofs.check_windows_repaired_sorted. Qed.
 
